@@ -17,12 +17,14 @@ def universes(tier, seed):
         out.append((f"F3c[{seed % 16}/16]", [("idx", 3, i) for i in U.shard(U.F3_indices(True), seed, 16)], 1))
         out.append((f"MULTI3[{seed % 4}/4]", [("idx", 3, i) for i in U.shard(U.catalogue("multi"), seed, 4)], 1))
         out.append((f"MAA3[{seed % 512}/512]", [("idx", 3, i) for i in U.shard(U.catalogue("maa"), seed, 512)], 1))
+        out.append((f"MAA3[{seed % 2048}/2048]+input", [("u", ("idx", 3, i), ("idx", 1, 2)) for i in U.shard(U.catalogue("maa"), seed, 2048)], 0))
     else:
         out = [("U2", [("idx", 2, i) for i in range(256)], 3), ("K", [("k", k) for k in U.kernel()], 3)]
         out.append(("F3c", [("idx", 3, i) for i in U.F3_indices(True)], 1))
         out.append((f"F3c[{seed % 8}/8]", [("idx", 3, i) for i in U.shard(U.F3_indices(True), seed, 8)], 2))
         out.append(("MULTI3", [("idx", 3, i) for i in U.catalogue("multi")], 2))
         out.append((f"MAA3[{seed % 8}/8]", [("idx", 3, i) for i in U.shard(U.catalogue("maa"), seed, 8)], 1))
+        out.append((f"MAA3[{seed % 64}/64]+input", [("u", ("idx", 3, i), ("idx", 1, 2)) for i in U.shard(U.catalogue("maa"), seed, 64)], 1))
     return out
 
 
@@ -109,7 +111,9 @@ def judge_fallback(net, sd, node, how):
     return out
 
 
-BASES = {"fresh": (), "expanded": (("bfs", None, None, None),), "skipped": (("succ", 0), ("skiprem",))}
+BASES = {"fresh": (), "expanded": (("bfs", None, None, None),), "skipped": (("succ", 0), ("skiprem",)),
+         # the skip-node pruning reads other nodes' already-known empty results: query every non-skip node first
+         "skipped_q": (("succ", 0), ("skiprem",), ("seeds", 0))}
 
 
 def run_unit(unit):
@@ -128,7 +132,7 @@ def run_unit(unit):
                         if len(own) >= 2 or any(a & (a - 1) for a in own):
                             res["nontrivial"].add((repr(spec), bname, node))
                         P = prefix_ops(node)
-                        d = depth if bname != "skipped" else min(depth, 1)
+                        d = depth if not bname.startswith("skipped") else min(depth, 1)
                         for L in range(0, d + 1):
                             for pre in itertools.product(P, repeat=L):
                                 hist = tuple(bops) + pre
